@@ -146,6 +146,13 @@ func (t *sseClientTransport) start(ctx context.Context) error {
 	t.sseConn.cancel = cancel
 	t.sseConn.mutex.Unlock()
 
+	// close() may have run after the check at the top and before cancel was registered; it then
+	// found nothing to cancel, so the connection attempt has to end here.
+	if t.closed.Load() {
+		cancel()
+		return errors.New("transport is closed")
+	}
+
 	// Create request to establish SSE connection
 	req, err := http.NewRequestWithContext(sseCtx, http.MethodGet, t.baseURL.String(), nil)
 	if err != nil {
@@ -209,6 +216,9 @@ func (t *sseClientTransport) start(ctx context.Context) error {
 	case <-ctx.Done():
 		t.close()
 		return fmt.Errorf("context cancelled while waiting for endpoint: %w", ctx.Err())
+	case <-sseCtx.Done():
+		// The stream ended (server closed it, or Close was called) before an endpoint arrived.
+		return errors.New("SSE stream closed while waiting for endpoint")
 	case <-time.After(60 * time.Second): // Add a timeout.
 		t.close()
 		return fmt.Errorf("timeout waiting for endpoint")
